@@ -70,3 +70,56 @@ class ComparatorEval(EvalContract):
 
 
 CONTRACTS.append(ComparatorEval)
+
+
+class ANDEval(EvalContract):
+    """symbolic.AND._evaluate__ (result cache off).  Spec: Den = Den(left) and Den(right); rows of the right side are
+    produced under the left row (bindings threaded left to right)."""
+    qual = 'symbolic:AND._evaluate__'
+    cls = 'AND'
+    props = ('C01', 'C02', 'C03')
+    inline = ('update_cache',)
+
+    def children(self, n):
+        return [Z.f_left(n), Z.f_right(n)]
+
+    def shape_facts(self, n):
+        l, r = Z.f_left(n), Z.f_right(n)
+        return (child_shape(n, l) + child_shape(n, r) + tree_shape(l, r) +
+                [Z.cond_pos(l), Z.cond_pos(r), Z.cond_pos(n), z3.Not(Z.is_value(n))])
+
+    def den(self, n, rho):
+        return z3.And(Z.Den(Z.f_left(n), rho), Z.Den(Z.f_right(n), rho))
+
+    def good(self, n, m):
+        return z3.And(Z.good_row(Z.f_left(n), m), Z.good_row(Z.f_right(n), m))
+
+
+class ElseIfEval(EvalContract):
+    """symbolic.ElseIf._evaluate__ (result cache off).  Spec: Den = Den(left) or Den(right), each binding once."""
+    qual = 'symbolic:ElseIf._evaluate__'
+    cls = 'ElseIf'
+    props = ('C01', 'C02', 'C03')
+    inline = ('update_cache',)
+
+    def children(self, n):
+        return [Z.f_left(n), Z.f_right(n)]
+
+    def shape_facts(self, n):
+        l, r = Z.f_left(n), Z.f_right(n)
+        return (child_shape(n, l) + child_shape(n, r) + tree_shape(l, r) +
+                [Z.cond_pos(l), Z.cond_pos(r), Z.cond_pos(n), z3.Not(Z.is_value(n))])
+
+    def den(self, n, rho):
+        return z3.Or(Z.Den(Z.f_left(n), rho), Z.Den(Z.f_right(n), rho))
+
+    def good(self, n, m):
+        return z3.And(Z.good_row(Z.f_left(n), m), Z.good_row(Z.f_right(n), m))
+
+    def loop_invariant(self, eng, st, ordinal, iterated):
+        if ordinal == 1 and 'any_left' in st.locals:
+            return eng.to_z3_bool(eng.truth(st, st.locals['any_left'])) == iterated
+        return None
+
+
+CONTRACTS += [ANDEval, ElseIfEval]
